@@ -65,7 +65,7 @@ SELECTOR = re.compile(r"Option::<T>::(unwrap_or|unwrap_or_else|or|or_else|xor|ma
                       r"Result::<T, E>::(unwrap_or|unwrap_or_else|or|or_else)$|cmp::(min|max|Ord::min|Ord::max)")
 
 
-def fields_read(fn, blocks, variant, F=None, VISITS=VISITS, selections=True):
+def fields_read(fn, blocks, variant, F=None, VISITS=VISITS, selections=True, init_taint=None, stored=None):
     """names of the fields of `variant` whose value flows (through refs, iteration, projections) into a recursive
     visit call, or into an iterator adaptor whose closure makes such a call, inside the given blocks"""
     seeds = {}
@@ -77,7 +77,7 @@ def fields_read(fn, blocks, variant, F=None, VISITS=VISITS, selections=True):
                 if isinstance(nx, dict) and "f" in nx:
                     return nx.get("n", str(nx["f"]))
         return None
-    taint = {}      # local -> set(field names)
+    taint = {k: set(v) for k, v in (init_taint or {}).items()}      # local -> set(field names)
     either = set()  # locals that hold one of several children (a selection), not all of them
     sites = {}
     order = sorted(blocks)
@@ -141,6 +141,25 @@ def fields_read(fn, blocks, variant, F=None, VISITS=VISITS, selections=True):
                         taint.setdefault(l, set()).update(src)
                         changed = True
                     continue
+                if src and stored is not None and c.rsplit("::", 1)[-1] in ("push", "push_back", "push_front", "insert", "extend") and len(t["args"]) >= 2:
+                    # a child put aside in a collection of the function (work list): whoever takes it out again may visit it
+                    rp = op_place(t["args"][0])
+                    if rp is not None:
+                        ro = FL.Defs(fn).origin_op(t["args"][0])
+                        base = ro
+                        while base.get("k") == "field":
+                            base = base["base"]
+                        if base.get("l") is not None and not (taint.get(rp["l"], set()) >= src and rp["l"] in (init_taint or {})):
+                            vsrc = set()
+                            for a in t["args"][1:]:
+                                pa = op_place(a)
+                                if pa:
+                                    sd = seed_of(pa)
+                                    if sd:
+                                        vsrc.add(sd)
+                                    vsrc |= taint.get(pa["l"], set())
+                            if vsrc:
+                                stored.setdefault(base["l"], set()).update(vsrc)
                 if src:
                     if c in VISITS:
                         visited |= src
@@ -187,7 +206,11 @@ def visitor_completeness(F, res, fn_name, adt_short, rule="S1", fn_path=None, vi
                    False, where=fn.loc(t["ln"]), how="falls into the catch-all arm: its children are never reached")
             continue
         region = reach[target] - common
-        read = fields_read(fn, region, v["name"], F, visits, selections)
+        stored = {}
+        read = fields_read(fn, region, v["name"], F, visits, selections, stored=stored)
+        if stored and any(k not in read for k in kids):
+            # children put aside in a work list of the function and visited when they are taken out again (outside the arm)
+            read = set(read) | fields_read(fn, set(fn.reachable()), "\0none", F, visits, False, init_taint=stored)
         missing = [k for k in kids if k not in read and (adt_short, v["name"], k) not in REVIEWED_SKIPS_]
         skipped = [k for k in kids if k not in read and (adt_short, v["name"], k) in REVIEWED_SKIPS_]
         res.ob(rule, "%s/%s" % (adt_short, v["name"]), ("%s::%s has children %s and an arm in %s that " + what + " them") % (adt_short, v["name"], kids, fn_name),
